@@ -313,6 +313,11 @@ func (c *client) decryptPipe(ciphertext chan []byte) (out chan []byte) {
 					case out <- result:
 					case <-c.ctx.Done():
 					}
+				} else {
+					// readPipe has ended (the peer hung up, a framing error): a closed channel is always
+					// ready, and this loop spun on it, one core per such connection, until c.ctx ends
+					// (idle timer, up to 60 s). A nil channel is never ready.
+					ciphertext = nil
 				}
 			}
 		}
